@@ -3,14 +3,54 @@
 //! Record cell (r, c) of the ORIGINAL dataset carries the tag r*64 + c, the weight of sample r is
 //! r + 0.5 (written 2w = 2r+1), names are "f<c>" / "t<c>".  Every result of every operation is read
 //! out through the public accessors into a type-erased canonical form (`Canon`), the next operation
-//! of a history is applied to a standard-layout dataset rebuilt from the kept result.
-use linfa::dataset::{AsTargets, Dataset, DatasetBase, Label, Labels, Records};
-use ndarray::{Array1, Array2, ArrayView, Axis, Dimension, Ix1, Ix2};
-use rand::SeedableRng;
+//! of a history is applied to a standard-layout dataset rebuilt from the kept result (streams
+//! exhaustive / random / malformed) or - stream "layout" - to the very object an operation returned.
+//!
+//! Every generator handed to an RNG-driven operation is wrapped in `RecRng`, which records each word
+//! the operation obtains (`next_u32` / `next_u64`); C02/Rng.v replays rand's index generation from
+//! those words.  Stream "layout" builds the source in non-standard memory layouts (Fortran order,
+//! strided / reversed / offset slices of a larger allocation, transposed) and ships the raw vectors,
+//! offsets and strides - read from the live ndarray objects - to C02/Layout.v.
+use linfa::dataset::{AsTargets, Dataset, DatasetBase, DatasetView, Label, Labels, Records};
+use ndarray::{s, Array, Array1, Array2, ArrayBase, ArrayView, Axis, Data, Dimension, Ix1, Ix2, ShapeBuilder};
+use rand::{RngCore, SeedableRng};
 use rand_xoshiro::Xoshiro256Plus;
+use std::cell::RefCell;
 use std::collections::HashMap;
 use std::panic::AssertUnwindSafe;
 use vh::*;
+
+// ---------------------------------------------------------------- recording generator
+thread_local! {
+    static WORDS: RefCell<Vec<(u8, u64)>> = RefCell::new(Vec::new());
+}
+struct RecRng(Xoshiro256Plus);
+impl RecRng {
+    fn new(seed: u64) -> Self { RecRng(Xoshiro256Plus::seed_from_u64(seed)) }
+}
+impl RngCore for RecRng {
+    fn next_u32(&mut self) -> u32 {
+        let v = self.0.next_u32();
+        WORDS.with(|w| w.borrow_mut().push((32, v as u64)));
+        v
+    }
+    fn next_u64(&mut self) -> u64 {
+        let v = self.0.next_u64();
+        WORDS.with(|w| w.borrow_mut().push((64, v)));
+        v
+    }
+    // not part of the modelled algorithms: a call shows up as a word the replay cannot account for
+    fn fill_bytes(&mut self, dest: &mut [u8]) {
+        WORDS.with(|w| w.borrow_mut().push((8, dest.len() as u64)));
+        self.0.fill_bytes(dest)
+    }
+    fn try_fill_bytes(&mut self, dest: &mut [u8]) -> Result<(), rand::Error> {
+        self.fill_bytes(dest);
+        Ok(())
+    }
+}
+fn words_clear() { WORDS.with(|w| w.borrow_mut().clear()); }
+fn words_take() -> Vec<(u8, u64)> { WORDS.with(|w| std::mem::take(&mut *w.borrow_mut())) }
 
 const TAGW: u64 = 64;
 const STAY: u64 = 255;
@@ -41,6 +81,7 @@ struct StepRes {
     panic: Option<String>,
     outs: Vec<OutC>,
     same: bool,
+    words: Vec<(u8, u64)>,
 }
 
 // ---------------------------------------------------------------- labels
@@ -189,22 +230,22 @@ macro_rules! ops_copy {
     (yes, $ds:ident, $op:expr, $seed:expr, $L:ty) => {
         match $op {
             Op::Shuffle => {
-                let mut rng = Xoshiro256Plus::seed_from_u64($seed);
+                let mut rng = RecRng::new($seed);
                 let r = $ds.shuffle(&mut rng);
                 Some(vec![plain(canon!(r))])
             }
             Op::Bootstrap(a, b) => {
-                let mut rng = Xoshiro256Plus::seed_from_u64($seed);
+                let mut rng = RecRng::new($seed);
                 let v: Vec<OutC> = $ds.bootstrap((*a, *b), &mut rng).take(2).map(|d| plain(canon!(d))).collect();
                 Some(v)
             }
             Op::BootSamples(k) => {
-                let mut rng = Xoshiro256Plus::seed_from_u64($seed);
+                let mut rng = RecRng::new($seed);
                 let v: Vec<OutC> = $ds.bootstrap_samples(*k, &mut rng).take(2).map(|d| plain(canon!(d))).collect();
                 Some(v)
             }
             Op::BootFeatures(k) => {
-                let mut rng = Xoshiro256Plus::seed_from_u64($seed);
+                let mut rng = RecRng::new($seed);
                 let v: Vec<OutC> = $ds.bootstrap_features(*k, &mut rng).take(2).map(|d| plain(canon!(d))).collect();
                 Some(v)
             }
@@ -257,45 +298,109 @@ macro_rules! ops_dim {
     };
 }
 
+// ---------------------------------------------------------------- physical layout read-out
+/// an array as it lies in memory: raw vector (cells encoded), offset of the first logical element, shape, strides
+#[derive(Clone, Debug, PartialEq)]
+struct Phys {
+    buf: Vec<u64>,
+    off: usize,
+    shape: Vec<usize>,
+    strides: Vec<isize>,
+}
+/// of an owned array: `clone()` copies the whole raw vector and keeps the offset (OwnedRepr::clone_with_ptr),
+/// `into_raw_vec()` hands it out; second component = address of the first element of `a`'s OWN raw vector
+fn phys_owned<T: Clone, D: Dimension>(a: &Array<T, D>, enc: &dyn Fn(&T) -> u64) -> (Phys, usize) {
+    let c = a.clone();
+    let p = c.as_ptr() as usize;
+    let shape = c.shape().to_vec();
+    let strides = c.strides().to_vec();
+    let raw = c.into_raw_vec();
+    let sz = std::mem::size_of::<T>();
+    let off = if raw.is_empty() { 0 } else { (p - raw.as_ptr() as usize) / sz };
+    let start = (a.as_ptr() as usize).wrapping_sub(off * sz);
+    (Phys { buf: raw.iter().map(|x| enc(x)).collect(), off, shape, strides }, start)
+}
+/// of a view into an allocation whose contents (`base`) and start address are known
+fn phys_view<T, S: Data<Elem = T>, D: Dimension>(v: &ArrayBase<S, D>, base: &Phys, start: usize) -> Phys {
+    let sz = std::mem::size_of::<T>();
+    let off = if v.is_empty() { 0 } else { ((v.as_ptr() as usize).wrapping_sub(start)) / sz };
+    Phys { buf: base.buf.clone(), off, shape: v.shape().to_vec(), strides: v.strides().to_vec() }
+}
+fn enc_f64(x: &f64) -> u64 { *x as u64 }
+fn enc_w(x: &f32) -> u64 { (*x * 2.0) as u64 }
+fn enc_l<L: Lab>(x: &L) -> u64 { x.enc() }
+
+#[derive(Clone, Debug, PartialEq)]
+struct PhysDs {
+    recs: Phys,
+    tgts: Phys,
+    ws: Phys,
+    fnm: Vec<u64>,
+    tnm: Vec<u64>,
+}
+fn phys_ds<L: Lab, I: linfa::dataset::TargetDim>(d: &Dataset<f64, L, I>) -> (PhysDs, usize, usize) {
+    let (recs, rstart) = phys_owned(&d.records, &enc_f64);
+    let (tgts, tstart) = phys_owned(&d.targets, &enc_l::<L>);
+    let (ws, _) = phys_owned(&d.weights, &enc_w);
+    (
+        PhysDs { recs, tgts, ws, fnm: d.feature_names().iter().map(|s| pname(s)).collect(), tnm: d.target_names().iter().map(|s| pname(s)).collect() },
+        rstart,
+        tstart,
+    )
+}
+
+// ---------------------------------------------------------------- one call
+macro_rules! apply_call {
+    ($d:ident, $op:expr, $on_view:expr, $seed:expr, $L:ty, $copy:tt, $ix:tt) => {{
+        let outs: Option<Vec<OutC>> = if $on_view {
+            let v = $d.view();
+            match $op {
+                Op::SplitView(r) => {
+                    let (a, b) = v.split_with_ratio(*r);
+                    Some(vec![plain(canon!(a)), plain(canon!(b))])
+                }
+                _ => ops_any!(v, $op, $L).or_else(|| ops_copy!($copy, v, $op, $seed, $L)).or_else(|| ops_dim!($ix, view, v, $op)),
+            }
+        } else {
+            match $op {
+                Op::SplitOwned(r) => {
+                    let (a, b) = $d.clone().split_with_ratio(*r);
+                    Some(vec![plain(canon!(a)), plain(canon!(b))])
+                }
+                _ => ops_any!($d, $op, $L).or_else(|| ops_copy!($copy, $d, $op, $seed, $L)).or_else(|| ops_dim!($ix, owned, $d, $op)),
+            }
+        };
+        outs
+    }};
+}
+
 macro_rules! def_step {
-    ($name:ident, $build:ident, $copy:tt, $ix:tt, [$($bound:tt)*]) => {
-        fn $name<L: $($bound)*>(c: &Canon, op: &Op, on_view: bool, seed: u64) -> StepRes {
-            let before = c.clone();
+    ($name:ident, $copy:tt, $ix:tt, $ixt:ty, [$($bound:tt)*]) => {
+        /// `mk` builds the receiver afresh; the source counts as unchanged when, after the call, its logical
+        /// contents AND its raw vectors / offsets / strides are what they were
+        fn $name<L: $($bound)*>(mk: &dyn Fn() -> Dataset<f64, L, $ixt>, op: &Op, on_view: bool, seed: u64) -> StepRes {
+            words_clear();
             let r = guarded(AssertUnwindSafe(|| {
-                let d = $build::<L>(c);
-                let outs: Option<Vec<OutC>> = if on_view {
-                    let v = d.view();
-                    match op {
-                        Op::SplitView(r) => {
-                            let (a, b) = v.split_with_ratio(*r);
-                            Some(vec![plain(canon!(a)), plain(canon!(b))])
-                        }
-                        _ => ops_any!(v, op, L).or_else(|| ops_copy!($copy, v, op, seed, L)).or_else(|| ops_dim!($ix, view, v, op)),
-                    }
-                } else {
-                    match op {
-                        Op::SplitOwned(r) => {
-                            let (a, b) = d.clone().split_with_ratio(*r);
-                            Some(vec![plain(canon!(a)), plain(canon!(b))])
-                        }
-                        _ => ops_any!(d, op, L).or_else(|| ops_copy!($copy, d, op, seed, L)).or_else(|| ops_dim!($ix, owned, d, op)),
-                    }
-                };
-                let same = canon!(d) == before;
+                let d = mk();
+                let before = canon!(d);
+                let fp = phys_ds(&d).0;
+                let outs = apply_call!(d, op, on_view, seed, L, $copy, $ix);
+                let same = canon!(d) == before && phys_ds(&d).0 == fp;
                 (outs, same)
             }));
+            let words = words_take();
             match r {
-                Ok((Some(outs), same)) => StepRes { panic: None, outs, same },
+                Ok((Some(outs), same)) => StepRes { panic: None, outs, same, words },
                 Ok((None, _)) => panic!("harness: operation {:?} (view={}) is not available for this dataset type", op, on_view),
-                Err(p) => StepRes { panic: Some(p), outs: vec![], same: true },
+                Err(p) => StepRes { panic: Some(p), outs: vec![], same: true, words },
             }
         }
     };
 }
-def_step!(step1, build1, yes, 1, [Lab + Copy]);
-def_step!(step2, build2, yes, 2, [Lab + Copy]);
-def_step!(step1_nc, build1, no, 1, [Lab]);
-def_step!(step2_nc, build2, no, 2, [Lab]);
+def_step!(step1, yes, 1, Ix1, [Lab + Copy]);
+def_step!(step2, yes, 2, Ix2, [Lab + Copy]);
+def_step!(step1_nc, no, 1, Ix1, [Lab]);
+def_step!(step2_nc, no, 2, Ix2, [Lab]);
 
 fn needs_copy(op: &Op) -> bool {
     matches!(op, Op::Shuffle | Op::Bootstrap(..) | Op::BootSamples(_) | Op::BootFeatures(_) | Op::WithLabels(_) | Op::ToOwned | Op::Chunks(_))
@@ -314,14 +419,14 @@ fn expressible(lt: LT, c: &Canon, op: &Op, on_view: bool) -> bool {
 
 fn run_step(lt: LT, c: &Canon, op: &Op, on_view: bool, seed: u64) -> StepRes {
     match (lt, c.t1) {
-        (LT::Usize, true) => step1::<usize>(c, op, on_view, seed),
-        (LT::Usize, false) => step2::<usize>(c, op, on_view, seed),
-        (LT::Bool, true) => step1::<bool>(c, op, on_view, seed),
-        (LT::Bool, false) => step2::<bool>(c, op, on_view, seed),
-        (LT::Str, true) => step1::<&'static str>(c, op, on_view, seed),
-        (LT::Str, false) => step2::<&'static str>(c, op, on_view, seed),
-        (LT::Strg, true) => step1_nc::<String>(c, op, on_view, seed),
-        (LT::Strg, false) => step2_nc::<String>(c, op, on_view, seed),
+        (LT::Usize, true) => step1::<usize>(&|| build1(c), op, on_view, seed),
+        (LT::Usize, false) => step2::<usize>(&|| build2(c), op, on_view, seed),
+        (LT::Bool, true) => step1::<bool>(&|| build1(c), op, on_view, seed),
+        (LT::Bool, false) => step2::<bool>(&|| build2(c), op, on_view, seed),
+        (LT::Str, true) => step1::<&'static str>(&|| build1(c), op, on_view, seed),
+        (LT::Str, false) => step2::<&'static str>(&|| build2(c), op, on_view, seed),
+        (LT::Strg, true) => step1_nc::<String>(&|| build1(c), op, on_view, seed),
+        (LT::Strg, false) => step2_nc::<String>(&|| build2(c), op, on_view, seed),
     }
 }
 
@@ -416,13 +521,33 @@ fn op_coq(op: &Op, cur: &Canon, res: &StepRes) -> String {
         Op::Chunks(s) => format!("(OpChunks {}%nat)", s),
     }
 }
+/// what an RNG-driven call asks the generator for (C02/Rng.v `rreq`); the bootstrap iterators are taken twice
+fn req_coq(op: &Op, res: &StepRes) -> String {
+    let iters = if res.panic.is_some() { 1 } else { res.outs.len() };
+    match op {
+        Op::Shuffle => "(Some RShuffle)".into(),
+        Op::Bootstrap(a, b) => format!("(Some (RBootstrap {} {} {}))", a, b, iters),
+        Op::BootSamples(k) => format!("(Some (RBootSamples {} {}))", k, iters),
+        Op::BootFeatures(k) => format!("(Some (RBootFeatures {} {}))", k, iters),
+        _ => "None".into(),
+    }
+}
+fn words_coq(ws: &[(u8, u64)]) -> String {
+    clist(ws, |(k, v)| match k {
+        32 => format!("W32 {}%N", v),
+        64 => format!("W64 {}%N", v),
+        _ => format!("WBytes {}%N", v),
+    })
+}
 fn step_coq(op: &Op, cur: &Canon, res: &StepRes, keep: u64) -> String {
     format!(
-        "(mkStep {} {}%N {} {} [{}])",
+        "(mkStep {} {}%N {} {} {} {} [{}])",
         op_coq(op, cur, res),
         keep,
         cbool(res.panic.is_some()),
         cbool(res.same),
+        req_coq(op, res),
+        words_coq(&res.words),
         res.outs.iter().map(out_coq).collect::<Vec<_>>().join("; ")
     )
 }
@@ -651,6 +776,552 @@ fn all_single_ops(r: &mut Sm64, lt: LT, c: &Canon) -> Vec<(Op, bool)> {
     v.into_iter().filter(|(op, w)| expressible(lt, c, op, *w)).collect()
 }
 
+// ---------------------------------------------------------------- memory layouts (stream "layout")
+/// how a two-dimensional array sits in a larger allocation: storage order of the allocation, rows/columns
+/// skipped in front, step (negative = reversed) and slack behind, per axis; `transposed`: built as the
+/// (w, n) array of the exchanged description and turned around with `reversed_axes()`
+#[derive(Clone, Debug)]
+struct L2 {
+    name: &'static str,
+    forder: bool,
+    transposed: bool,
+    r0: usize,
+    rstep: isize,
+    rpad: usize,
+    c0: usize,
+    cstep: isize,
+    cpad: usize,
+}
+#[derive(Clone, Debug)]
+struct L1 {
+    name: &'static str,
+    o0: usize,
+    step: isize,
+    pad: usize,
+}
+const L2_STD: L2 = L2 { name: "std", forder: false, transposed: false, r0: 0, rstep: 1, rpad: 0, c0: 0, cstep: 1, cpad: 0 };
+const L1_STD: L1 = L1 { name: "std", o0: 0, step: 1, pad: 0 };
+
+fn gen_l2(r: &mut Sm64) -> L2 {
+    let b = L2_STD;
+    match r.below(14) {
+        0 => b,
+        1 => L2 { name: "fortran", forder: true, ..b },
+        2 => L2 { name: "transposed", transposed: true, ..b },
+        3 => L2 { name: "row_step2", rstep: 2, ..b },
+        4 => L2 { name: "col_step2", cstep: 2, ..b },
+        5 => L2 { name: "rows_reversed", rstep: -1, ..b },
+        6 => L2 { name: "cols_reversed", cstep: -1, ..b },
+        7 => L2 { name: "rows_offset", r0: 1 + r.below(2) as usize, ..b },           // standard strides, longer raw vector, offset > 0
+        8 => L2 { name: "rows_slack_behind", rpad: 1 + r.below(2) as usize, ..b },   // standard strides, longer raw vector, offset 0
+        9 => L2 { name: "cols_offset", c0: 1, cpad: r.below(2) as usize, ..b },
+        10 => L2 { name: "fortran_row_step2", forder: true, rstep: 2, r0: r.below(2) as usize, ..b },
+        11 => L2 { name: "transposed_sliced", transposed: true, r0: r.below(2) as usize, cstep: 2, ..b },
+        _ => L2 {
+            name: "mixed",
+            forder: r.chance(0.5),
+            transposed: r.chance(0.3),
+            r0: r.below(2) as usize,
+            rstep: *r.pick(&[1isize, 1, 2, -1, -2]),
+            rpad: r.below(2) as usize,
+            c0: r.below(2) as usize,
+            cstep: *r.pick(&[1isize, 1, 2, -1]),
+            cpad: r.below(2) as usize,
+        },
+    }
+}
+fn gen_l1(r: &mut Sm64) -> L1 {
+    match r.below(8) {
+        0 | 1 => L1_STD,
+        2 => L1 { name: "step2", o0: 0, step: 2, pad: 0 },
+        3 => L1 { name: "reversed", o0: 0, step: -1, pad: 0 },
+        4 => L1 { name: "offset", o0: 1 + r.below(2) as usize, step: 1, pad: 0 },
+        5 => L1 { name: "slack_behind", o0: 0, step: 1, pad: 1 + r.below(2) as usize },
+        6 => L1 { name: "reversed_step2", o0: r.below(2) as usize, step: -2, pad: 0 },
+        _ => L1 { name: "mixed", o0: r.below(2) as usize, step: *r.pick(&[1isize, 2, -1, 3]), pad: r.below(2) as usize },
+    }
+}
+
+/// the allocation is filled with `poison(k)`, then the logical cells are written through the sliced array
+fn mk2<T: Clone>(n: usize, w: usize, l: &L2, cell: &dyn Fn(usize, usize) -> T, poison: &dyn Fn(usize) -> T) -> Array2<T> {
+    if l.transposed {
+        let lx = L2 { transposed: false, r0: l.c0, rstep: l.cstep, rpad: l.cpad, c0: l.r0, cstep: l.rstep, cpad: l.rpad, ..l.clone() };
+        return mk2(w, n, &lx, &|j, i| cell(i, j), poison).reversed_axes();
+    }
+    let (ra, ca) = (l.rstep.unsigned_abs(), l.cstep.unsigned_abs());
+    let (nn, mm) = (l.r0 + n * ra + l.rpad, l.c0 + w * ca + l.cpad);
+    let v: Vec<T> = (0..nn * mm).map(|k| poison(k)).collect();
+    let base = if l.forder { Array2::from_shape_vec((nn, mm).f(), v).unwrap() } else { Array2::from_shape_vec((nn, mm), v).unwrap() };
+    let mut a = base.slice_move(s![l.r0..l.r0 + n * ra; l.rstep, l.c0..l.c0 + w * ca; l.cstep]);
+    assert_eq!(a.dim(), (n, w), "harness: layout construction");
+    for i in 0..n {
+        for j in 0..w {
+            a[[i, j]] = cell(i, j);
+        }
+    }
+    a
+}
+fn mk1<T: Clone>(n: usize, l: &L1, cell: &dyn Fn(usize) -> T, poison: &dyn Fn(usize) -> T) -> Array1<T> {
+    let sa = l.step.unsigned_abs();
+    let v: Vec<T> = (0..l.o0 + n * sa + l.pad).map(|k| poison(k)).collect();
+    let mut a = Array1::from(v).slice_move(s![l.o0..l.o0 + n * sa; l.step]);
+    assert_eq!(a.len(), n, "harness: layout construction");
+    for i in 0..n {
+        a[i] = cell(i);
+    }
+    a
+}
+
+#[derive(Clone, Debug)]
+struct LaySpec {
+    c: Canon,
+    lt: LT,
+    lr: L2,
+    lt2: L2,
+    lt1: L1,
+    lw: L1,
+}
+/// cells of the allocation that belong to no sample: record tags >= 60000 (sample id >= 937), weights
+/// 1000.5 + k, labels 9000 + k where the label type can tell them apart
+fn poison_label(lt: LT, k: usize) -> u64 {
+    match lt { LT::Usize => 9000 + k as u64, LT::Bool => (k % 2) as u64, _ => 12 + (k % 4) as u64 }
+}
+fn lay_decorate<T: AsTargets>(d: DatasetBase<Array2<f64>, T>, s: &LaySpec) -> DatasetBase<Array2<f64>, T> {
+    let c = &s.c;
+    let w = if c.ws.is_empty() { Array1::zeros(0) } else { mk1(c.ws.len(), &s.lw, &|i| c.ws[i] as f32 / 2.0, &|k| 1000.5 + k as f32) };
+    d.with_weights(w)
+        .with_feature_names(c.fnm.iter().map(|k| format!("f{}", k)).collect::<Vec<_>>())
+        .with_target_names(c.tnm.iter().map(|k| format!("t{}", k)).collect::<Vec<_>>())
+}
+fn lay_recs(s: &LaySpec) -> Array2<f64> {
+    let c = &s.c;
+    mk2(c.recs.len(), c.nf, &s.lr, &|i, j| c.recs[i][j] as f64, &|k| (60000 + k) as f64)
+}
+fn lay_build1<L: Lab>(s: &LaySpec) -> Dataset<f64, L, Ix1> {
+    let c = &s.c;
+    let t = mk1(c.tgts.len(), &s.lt1, &|i| L::dec(c.tgts[i][0]), &|k| L::dec(poison_label(s.lt, k)));
+    lay_decorate(Dataset::new(lay_recs(s), t), s)
+}
+fn lay_build2<L: Lab>(s: &LaySpec) -> Dataset<f64, L, Ix2> {
+    let c = &s.c;
+    let t = mk2(c.tgts.len(), c.nt, &s.lt2, &|i, j| L::dec(c.tgts[i][j]), &|k| L::dec(poison_label(s.lt, k)));
+    lay_decorate(Dataset::new(lay_recs(s), t), s)
+}
+
+/// the first call is made on a view of the source, its `k`-th result (a view into the source's allocations,
+/// with whatever offsets and strides the call produced) is the receiver of the second call - no rebuilding
+macro_rules! def_chain {
+    ($name:ident, $ix:tt, $ixt:ty) => {
+        fn $name<L: Lab + Copy>(mk: &dyn Fn() -> Dataset<f64, L, $ixt>, op1: &Op, k: usize, op2: &Op, seed: u64) -> Option<(PhysDs, Canon, StepRes)> {
+            words_clear();
+            let mut inter: Option<(PhysDs, Canon)> = None;
+            let r = guarded(AssertUnwindSafe(|| {
+                let d = mk();
+                let (pd, rstart, tstart) = phys_ds(&d);
+                let v = d.view();
+                let firsts: Vec<DatasetView<f64, L, $ixt>> = match op1 {
+                    Op::View => vec![v.view()],
+                    Op::SplitView(r) => {
+                        let (a, b) = v.split_with_ratio(*r);
+                        vec![a, b]
+                    }
+                    Op::Chunks(s) => v.sample_chunks(*s).collect(),
+                    Op::FeatureIter => v.feature_iter().collect(),
+                    Op::TargetIter => v.target_iter().collect(),
+                    _ => panic!("harness: not a view-producing call"),
+                };
+                if firsts.is_empty() {
+                    return (None, true);
+                }
+                let w = firsts[k % firsts.len()].clone();
+                let phys_w = |w: &DatasetView<f64, L, $ixt>| PhysDs {
+                    recs: phys_view(&w.records, &pd.recs, rstart),
+                    tgts: phys_view(&w.targets, &pd.tgts, tstart),
+                    ws: phys_owned(&w.weights, &enc_w).0,
+                    fnm: w.feature_names().iter().map(|s| pname(s)).collect(),
+                    tnm: w.target_names().iter().map(|s| pname(s)).collect(),
+                };
+                let pw = phys_w(&w);
+                let before = canon!(w);
+                inter = Some((pw.clone(), before.clone()));
+                words_clear();
+                let outs: Option<Vec<OutC>> = match op2 {
+                    Op::SplitView(r) => {
+                        let (a, b) = w.split_with_ratio(*r);
+                        Some(vec![plain(canon!(a)), plain(canon!(b))])
+                    }
+                    _ => ops_any!(w, op2, L).or_else(|| ops_copy!(yes, w, op2, seed, L)).or_else(|| ops_dim!($ix, view, w, op2)),
+                };
+                let same = canon!(w) == before && phys_w(&w) == pw && phys_ds(&d).0 == pd;
+                (outs, same)
+            }));
+            let words = words_take();
+            let (pw, before) = inter?;
+            let res = match r {
+                Ok((Some(outs), same)) => StepRes { panic: None, outs, same, words },
+                Ok((None, _)) => return None,
+                Err(p) => StepRes { panic: Some(p), outs: vec![], same: true, words },
+            };
+            Some((pw, before, res))
+        }
+    };
+}
+def_chain!(chain1, 1, Ix1);
+def_chain!(chain2, 2, Ix2);
+
+/// the same for calls that return OWNED datasets: the receiver of the second call is the object the first
+/// call returned, in whatever layout ndarray built it (select along the feature axis, for one, returns a
+/// Fortran-ordered array); its raw vectors, offsets and strides are read from the live object
+macro_rules! def_chain_owned {
+    ($name:ident, $ix:tt, $ixt:ty) => {
+        fn $name<L: Lab + Copy>(mk: &dyn Fn() -> Dataset<f64, L, $ixt>, op1: &Op, k: usize, op2: &Op, on_view2: bool, seed1: u64, seed2: u64) -> Option<(PhysDs, Canon, StepRes)> {
+            words_clear();
+            let mut inter: Option<(PhysDs, Canon)> = None;
+            let r = guarded(AssertUnwindSafe(|| {
+                let d = mk();
+                let firsts: Vec<Dataset<f64, L, $ixt>> = {
+                    let mut rng = RecRng::new(seed1);
+                    match op1 {
+                        Op::Shuffle => vec![d.shuffle(&mut rng)],
+                        Op::Bootstrap(a, b) => d.bootstrap((*a, *b), &mut rng).take(2).collect(),
+                        Op::BootSamples(n) => d.bootstrap_samples(*n, &mut rng).take(2).collect(),
+                        Op::BootFeatures(n) => d.bootstrap_features(*n, &mut rng).take(2).collect(),
+                        Op::ToOwned => vec![DatasetBase::to_owned(&d)],
+                        Op::MapTargets(a, b, m) => {
+                            let (a, b, m) = (*a, *b, *m);
+                            vec![d.clone().map_targets(|x| <L as Lab>::dec((a * x.enc() + b) % m))]
+                        }
+                        Op::SplitOwned(r) => {
+                            let (x, y) = d.clone().split_with_ratio(*r);
+                            vec![x, y]
+                        }
+                        _ => panic!("harness: not a call returning owned datasets of the same type"),
+                    }
+                };
+                if firsts.is_empty() {
+                    return (None, true);
+                }
+                let w = firsts[k % firsts.len()].clone();
+                let pw = phys_ds(&w).0;
+                let before = canon!(w);
+                inter = Some((pw.clone(), before.clone()));
+                words_clear();
+                let outs = apply_call!(w, op2, on_view2, seed2, L, yes, $ix);
+                let same = canon!(w) == before && phys_ds(&w).0 == pw;
+                (outs, same)
+            }));
+            let words = words_take();
+            let (pw, before) = inter?;
+            let res = match r {
+                Ok((Some(outs), same)) => StepRes { panic: None, outs, same, words },
+                Ok((None, _)) => return None,
+                Err(p) => StepRes { panic: Some(p), outs: vec![], same: true, words },
+            };
+            Some((pw, before, res))
+        }
+    };
+}
+def_chain_owned!(chain_owned1, 1, Ix1);
+def_chain_owned!(chain_owned2, 2, Ix2);
+
+fn lay_step(s: &LaySpec, op: &Op, on_view: bool, seed: u64) -> StepRes {
+    match (s.lt, s.c.t1) {
+        (LT::Usize, true) => step1::<usize>(&|| lay_build1(s), op, on_view, seed),
+        (LT::Usize, false) => step2::<usize>(&|| lay_build2(s), op, on_view, seed),
+        (LT::Bool, true) => step1::<bool>(&|| lay_build1(s), op, on_view, seed),
+        (LT::Bool, false) => step2::<bool>(&|| lay_build2(s), op, on_view, seed),
+        (LT::Str, true) => step1::<&'static str>(&|| lay_build1(s), op, on_view, seed),
+        (LT::Str, false) => step2::<&'static str>(&|| lay_build2(s), op, on_view, seed),
+        (LT::Strg, true) => step1_nc::<String>(&|| lay_build1(s), op, on_view, seed),
+        (LT::Strg, false) => step2_nc::<String>(&|| lay_build2(s), op, on_view, seed),
+    }
+}
+fn lay_chain(s: &LaySpec, op1: &Op, k: usize, op2: &Op, seed: u64) -> Option<(PhysDs, Canon, StepRes)> {
+    match (s.lt, s.c.t1) {
+        (LT::Usize, true) => chain1::<usize>(&|| lay_build1(s), op1, k, op2, seed),
+        (LT::Usize, false) => chain2::<usize>(&|| lay_build2(s), op1, k, op2, seed),
+        (LT::Bool, true) => chain1::<bool>(&|| lay_build1(s), op1, k, op2, seed),
+        (LT::Bool, false) => chain2::<bool>(&|| lay_build2(s), op1, k, op2, seed),
+        (LT::Str, true) => chain1::<&'static str>(&|| lay_build1(s), op1, k, op2, seed),
+        (LT::Str, false) => chain2::<&'static str>(&|| lay_build2(s), op1, k, op2, seed),
+        (LT::Strg, _) => None,
+    }
+}
+fn lay_chain_owned(s: &LaySpec, op1: &Op, k: usize, op2: &Op, on_view2: bool, seed1: u64, seed2: u64) -> Option<(PhysDs, Canon, StepRes)> {
+    match (s.lt, s.c.t1) {
+        (LT::Usize, true) => chain_owned1::<usize>(&|| lay_build1(s), op1, k, op2, on_view2, seed1, seed2),
+        (LT::Usize, false) => chain_owned2::<usize>(&|| lay_build2(s), op1, k, op2, on_view2, seed1, seed2),
+        (LT::Bool, true) => chain_owned1::<bool>(&|| lay_build1(s), op1, k, op2, on_view2, seed1, seed2),
+        (LT::Bool, false) => chain_owned2::<bool>(&|| lay_build2(s), op1, k, op2, on_view2, seed1, seed2),
+        (LT::Str, true) => chain_owned1::<&'static str>(&|| lay_build1(s), op1, k, op2, on_view2, seed1, seed2),
+        (LT::Str, false) => chain_owned2::<&'static str>(&|| lay_build2(s), op1, k, op2, on_view2, seed1, seed2),
+        (LT::Strg, _) => None,
+    }
+}
+fn lay_phys(s: &LaySpec) -> (PhysDs, Canon) {
+    macro_rules! go {
+        ($b:ident, $L:ty) => {{
+            let d = $b::<$L>(s);
+            (phys_ds(&d).0, canon!(d))
+        }};
+    }
+    match (s.lt, s.c.t1) {
+        (LT::Usize, true) => go!(lay_build1, usize),
+        (LT::Usize, false) => go!(lay_build2, usize),
+        (LT::Bool, true) => go!(lay_build1, bool),
+        (LT::Bool, false) => go!(lay_build2, bool),
+        (LT::Str, true) => go!(lay_build1, &'static str),
+        (LT::Str, false) => go!(lay_build2, &'static str),
+        (LT::Strg, true) => go!(lay_build1, String),
+        (LT::Strg, false) => go!(lay_build2, String),
+    }
+}
+
+fn czs(x: isize) -> String { format!("({})%Z", x) }
+fn phys2_coq(p: &Phys) -> String {
+    format!("(mkA2 {} {}%nat {}%nat {}%nat {} {})", cvecu(&p.buf), p.off, p.shape[0], p.shape[1], czs(p.strides[0]), czs(p.strides[1]))
+}
+fn phys1_coq(p: &Phys) -> String {
+    format!("(mkA1 {} {}%nat {}%nat {})", cvecu(&p.buf), p.off, p.shape[0], czs(p.strides[0]))
+}
+fn physds_coq(p: &PhysDs) -> String {
+    let t = if p.tgts.shape.len() == 1 { format!("(T1 {})", phys1_coq(&p.tgts)) } else { format!("(T2 {})", phys2_coq(&p.tgts)) };
+    format!("(mkL {} {} {} {} {})", phys2_coq(&p.recs), t, phys1_coq(&p.ws), cvecu(&p.fnm), cvecu(&p.tnm))
+}
+/// the weight array is its own raw vector, in order (what `Array1::from(vec)` gives)
+fn plain_weights(p: &Phys) -> bool {
+    p.off == 0 && p.buf.len() == p.shape[0] && (p.strides[0] == 1 || p.shape[0] <= 1)
+}
+fn std2(p: &Phys) -> bool {
+    let (n, w) = (p.shape[0], p.shape[1]);
+    n == 0 || w == 0 || ((w == 1 || p.strides[1] == 1) && (n == 1 || p.strides[0] == if w == 1 { 1 } else { w as isize }))
+}
+fn phys_std(p: &Phys) -> bool {
+    if p.shape.len() == 1 { p.strides[0] == 1 || p.shape[0] <= 1 } else { std2(p) }
+}
+fn phys_class(p: &Phys) -> &'static str {
+    let size: usize = p.shape.iter().product();
+    if !phys_std(p) { "nonstandard" } else if p.buf.len() != size { "standard_longer_buffer" } else { "standard_exact" }
+}
+
+/// one CLay case: the calls `plan` on the source `pd` (logical contents `cur`), every call on the source itself
+fn emit_lay(out: &mut Out, em: &mut Emit, lt: LT, pd: &PhysDs, cur: &Canon, steps: &[(Op, bool, StepRes)], stream: &str, extra_tags: &[String], lay_desc: &str) {
+    let id = em.id;
+    em.id += 1;
+    let mut names: Vec<String> = vec![];
+    let mut coq_steps: Vec<String> = vec![];
+    let mut salt: u64 = 0;
+    for (op, on_view, res) in steps {
+        coq_steps.push(step_coq(op, cur, res, STAY));
+        names.push(format!("{}{}{}", op_name(op), if *on_view { "@view" } else { "" }, if res.panic.is_some() { "!panic" } else { "" }));
+        out.bump(&format!("op_{}", op_name(op)));
+        out.bump(&format!("layout_op_{}", op_name(op)));
+        if res.panic.is_some() { out.bump("panics"); out.bump("layout_panics"); }
+        salt = salt.wrapping_mul(31).wrapping_add(fnv(format!("{:?}{}", op, on_view).as_bytes()));
+    }
+    let n = cur.recs.len();
+    out.bump(&format!("stream_{}", stream));
+    out.bump(&format!("labels_{}", lt_name(lt)));
+    out.bump(&format!("layout_records_{}", phys_class(&pd.recs)));
+    out.bump(&format!("layout_targets_{}", phys_class(&pd.tgts)));
+    out.bump(&format!("layout_weights_{}", if pd.ws.shape[0] == 0 { "none" } else if plain_weights(&pd.ws) { "plain" } else { "not_plain" }));
+    let desc = format!(
+        "{{\"stream\": {}, \"label_type\": {}, \"n\": {}, \"nfeatures\": {}, \"targets\": {}, \"layout\": {}, \"records\": {{\"offset\": {}, \"strides\": {:?}, \"raw_len\": {}}}, \"targets_array\": {{\"offset\": {}, \"strides\": {:?}, \"raw_len\": {}}}, \"weights\": {{\"len\": {}, \"offset\": {}, \"strides\": {:?}, \"raw_len\": {}}}, \"target_values\": {:?}, \"calls\": {}}}",
+        jstr(stream), jstr(lt_name(lt)), n, cur.nf, jstr(&if cur.t1 { "1-D".to_string() } else { format!("2-D x{}", cur.nt) }), jstr(lay_desc),
+        pd.recs.off, pd.recs.strides, pd.recs.buf.len(), pd.tgts.off, pd.tgts.strides, pd.tgts.buf.len(),
+        pd.ws.shape[0], pd.ws.off, pd.ws.strides, pd.ws.buf.len(), cur.tgts, jstr(&names.join(" | "))
+    );
+    let coq = format!("(CLay {}%N {} [{}])", id, physds_coq(pd), coq_steps.join(";\n   "));
+    let mut h: Vec<u64> = vec![pd.recs.off as u64, pd.tgts.off as u64, pd.ws.off as u64, pd.recs.buf.len() as u64, pd.tgts.buf.len() as u64, pd.ws.buf.len() as u64];
+    h.extend(pd.recs.strides.iter().chain(pd.tgts.strides.iter()).chain(pd.ws.strides.iter()).map(|x| *x as u64));
+    let hb: Vec<u8> = h.iter().flat_map(|x| x.to_le_bytes().to_vec()).collect();
+    let key = if n >= 2 { Some(hash_canon(cur, salt) ^ fnv(&hb)) } else { None };
+    let mut tags = vec![format!("stream_{}", stream), format!("labels_{}", lt_name(lt))];
+    tags.extend(extra_tags.iter().cloned());
+    let tagrefs: Vec<&str> = tags.iter().map(|s| s.as_str()).collect();
+    out.case(id, &coq, &tagrefs, &desc, key);
+}
+
+/// the calls of the layout stream on one source: every operation, owned and view receivers, few split points
+fn lay_ops(r: &mut Sm64, lt: LT, c: &Canon) -> Vec<(Op, bool)> {
+    let n = c.recs.len();
+    let mut v: Vec<(Op, bool)> = vec![];
+    for _ in 0..2 {
+        v.push((Op::SplitView(gen_ratio(r, n)), true));
+    }
+    v.push((Op::SplitOwned(gen_ratio(r, n)), false));
+    v.push((Op::SplitOwned(if n == 0 { 0.5 } else { (1 + r.below(n as u64)) as f32 / n as f32 }), false));
+    // the label filter (weights() as a slice) on both receivers, the other calls on one of them
+    v.push((Op::WithLabels(gen_labels(r, c)), false));
+    v.push((Op::WithLabels(gen_labels(r, c)), true));
+    v.push((Op::IntoSingle, false));
+    let singles = vec![
+        Op::Shuffle,
+        Op::Shuffle,
+        Op::Bootstrap(r.below(4) as usize, r.below(4) as usize),
+        Op::BootSamples(r.below(5) as usize),
+        Op::BootFeatures(r.below(4) as usize),
+        Op::OneVsAll,
+        Op::MapTargets(1 + r.below(3), r.below(4), modulus(lt)),
+        Op::View,
+        Op::ToOwned,
+        Op::SampleIter,
+        Op::FeatureIter,
+        Op::TargetIter,
+        Op::Chunks(1 + r.below(3) as usize),
+    ];
+    for op in singles {
+        let w = r.chance(0.5);
+        v.push((op, w));
+    }
+    v.into_iter()
+        .filter(|(op, w)| expressible(lt, c, op, *w))
+        .filter(|(op, _)| match op {
+            Op::Bootstrap(a, b) => (*a == 0 || n > 0) && (*b == 0 || c.nf > 0),
+            Op::BootSamples(k) => *k == 0 || n > 0,
+            Op::BootFeatures(k) => *k == 0 || c.nf > 0,
+            Op::IntoSingle => c.nt == 1 || n == 0,
+            Op::TargetIter => !c.t1,
+            Op::MapTargets(..) => c.tgts.iter().flatten().all(|v| *v < 64),
+            _ => true,
+        })
+        .collect()
+}
+
+fn layout_stream(out: &mut Out, em: &mut Emit, rng: &mut Sm64, thorough: bool) {
+    let nsrc = if thorough { 500 } else { 260 };
+    let lts = [LT::Usize, LT::Bool, LT::Str, LT::Usize];
+    for i in 0..nsrc {
+        let mut r = rng.fork();
+        let lt = lts[i % 4];
+        let n = if r.chance(0.12) { r.below(2) as usize } else { 2 + r.below(if thorough { 9 } else { 6 }) as usize };
+        let nf = if r.chance(0.06) { 0 } else { 1 + r.below(3) as usize };
+        let tk = *r.pick(&[0usize, 0, 0, 2, 2, 3, 3, 1]);
+        let (w, nm) = (r.chance(0.75), r.chance(0.6));
+        let tg = r.chance(0.3);
+        let c = gen_ds(&mut r, lt, n, nf, tk, w, nm, tg);
+        // at least one of the three arrays is not in the plain layout
+        let mut spec = LaySpec { c, lt, lr: gen_l2(&mut r), lt2: gen_l2(&mut r), lt1: gen_l1(&mut r), lw: gen_l1(&mut r) };
+        match i % 5 {
+            0 => { spec.lt2 = L2_STD; spec.lt1 = L1_STD; spec.lw = L1_STD; }      // records alone
+            1 => { spec.lr = L2_STD; spec.lw = L1_STD; }                           // targets alone
+            2 => { spec.lr = L2_STD; spec.lt2 = L2_STD; spec.lt1 = L1_STD; }       // weights alone
+            _ => {}
+        }
+        let (pd, cur) = lay_phys(&spec);
+        assert_eq!(cur, spec.c, "harness: the layout construction does not show the intended logical contents");
+        let lay_desc = format!("records {} / targets {} / weights {}", spec.lr.name, if spec.c.t1 { spec.lt1.name } else { spec.lt2.name }, if spec.c.ws.is_empty() { "none" } else { spec.lw.name });
+        let base_tags = vec![format!("recs_{}", phys_class(&pd.recs)), format!("tgts_{}", phys_class(&pd.tgts))];
+
+        // (1) every operation on the source as it lies in memory
+        let ops = lay_ops(&mut r, lt, &cur);
+        let weights_raw_class = !cur.ws.is_empty() && !plain_weights(&pd.ws);
+        let mut main_steps: Vec<(Op, bool, StepRes)> = vec![];
+        let mut raw_steps: Vec<(Op, bool, StepRes)> = vec![];
+        for (op, on_view) in ops {
+            let seed = r.below(1 << 30);
+            let res = lay_step(&spec, &op, on_view, seed);
+            // the owned split hands the RAW weight vector on: calls of that class form cases of their own
+            if weights_raw_class && matches!(op, Op::SplitOwned(_)) { raw_steps.push((op, on_view, res)); } else { main_steps.push((op, on_view, res)); }
+        }
+        emit_lay(out, em, lt, &pd, &cur, &main_steps, "layout", &base_tags, &lay_desc);
+        for st in raw_steps {
+            let mut tags = base_tags.clone();
+            tags.push("owned_split_weights_not_plain".to_string());
+            emit_lay(out, em, lt, &pd, &cur, &[st], "layout", &tags, &lay_desc);
+        }
+
+        // (2) a call on the very object a view-producing call returned
+        let nchain = if thorough { 4 } else { 3 };
+        let mut first_steps: Vec<(Op, bool, StepRes)> = vec![];
+        for _ in 0..nchain {
+            let op1 = match r.below(6) {
+                0 => Op::View,
+                1 | 2 => Op::SplitView(gen_ratio(&mut r, n)),
+                3 => Op::Chunks(1 + r.below(3) as usize),
+                4 => Op::FeatureIter,
+                _ => if cur.t1 { Op::Chunks(2) } else { Op::TargetIter },
+            };
+            let k = r.below(4) as usize;
+            let seed = r.below(1 << 30);
+            // the second call is planned on the logical result of the first (read from a dry run)
+            let dry = lay_step(&spec, &op1, true, seed);
+            if dry.panic.is_some() || dry.outs.is_empty() { continue; }
+            let mid = dry.outs[k % dry.outs.len()].ds.clone();
+            let mut op2 = None;
+            for _ in 0..50 {
+                let (o, _) = gen_op(&mut r, lt, &mid);
+                if expressible(lt, &mid, &o, true) && !matches!(o, Op::SplitOwned(_) | Op::IntoSingle) { op2 = Some(o); break; }
+            }
+            let op2 = match op2 { Some(o) => o, None => continue };
+            let op2 = if let Op::SplitView(_) = op2 { Op::SplitView(gen_ratio(&mut r, mid.recs.len())) } else { op2 };
+            if let Some((pw, before, res)) = lay_chain(&spec, &op1, k, &op2, seed) {
+                assert_eq!(before, mid, "harness: the chained receiver is not the result of the dry run");
+                let tags = vec![format!("recs_{}", phys_class(&pw.recs)), format!("tgts_{}", phys_class(&pw.tgts)), "chained".to_string()];
+                let d2 = format!("{} ; receiver = result {} of {}@view", lay_desc, k % dry.outs.len(), op_name(&op1));
+                out.bump(&format!("chained_after_{}", op_name(&op1)));
+                emit_lay(out, em, lt, &pw, &before, &[(op2, true, res)], "layout_chained", &tags, &d2);
+                first_steps.push((op1, true, dry));
+            }
+        }
+        // (3) a call on the very object a call returning OWNED datasets produced
+        for _ in 0..(if thorough { 3 } else { 2 }) {
+            let op1 = match r.below(8) {
+                0 => Op::Shuffle,
+                1 => Op::Bootstrap(1 + r.below(3) as usize, 1 + r.below(3) as usize),
+                2 => Op::BootSamples(1 + r.below(4) as usize),
+                3 | 4 => Op::BootFeatures(1 + r.below(3) as usize),
+                5 => Op::ToOwned,
+                6 => Op::MapTargets(1 + r.below(3), r.below(4), modulus(lt)),
+                _ => Op::SplitOwned(gen_ratio(&mut r, n)),
+            };
+            let ok1 = match &op1 {
+                Op::Bootstrap(..) => n > 0 && cur.nf > 0,
+                Op::BootSamples(_) => n > 0,
+                Op::BootFeatures(_) => cur.nf > 0,
+                Op::MapTargets(..) => cur.tgts.iter().flatten().all(|v| *v < 64),
+                // the raw-vector weight split (F-C02-1) stays in the cases of its own
+                Op::SplitOwned(_) => !weights_raw_class,
+                _ => true,
+            };
+            if !ok1 { continue; }
+            let k = r.below(4) as usize;
+            let (seed1, seed2) = (r.below(1 << 30), r.below(1 << 30));
+            let dry = lay_step(&spec, &op1, false, seed1);
+            if dry.panic.is_some() || dry.outs.is_empty() { continue; }
+            let mid = dry.outs[k % dry.outs.len()].ds.clone();
+            // the owned split first (its layout asserts are what an odd result layout would trip), then anything
+            let (op2, on_view2) = if r.chance(0.5) {
+                (Op::SplitOwned(gen_ratio(&mut r, mid.recs.len())), false)
+            } else {
+                let mut pick = None;
+                for _ in 0..50 {
+                    let (o, w) = gen_op(&mut r, lt, &mid);
+                    if expressible(lt, &mid, &o, w) { pick = Some((o, w)); break; }
+                }
+                match pick { Some(p) => p, None => continue }
+            };
+            if let Some((pw, before, res)) = lay_chain_owned(&spec, &op1, k, &op2, on_view2, seed1, seed2) {
+                assert_eq!(before, mid, "harness: the chained receiver is not the result of the dry run");
+                let mut tags = vec![format!("recs_{}", phys_class(&pw.recs)), format!("tgts_{}", phys_class(&pw.tgts)), "chained_owned".to_string()];
+                // the class of F-C02-1: owned split of a dataset whose (one per sample) weights are not their own raw vector
+                if matches!(op2, Op::SplitOwned(_)) && !before.ws.is_empty() && !plain_weights(&pw.ws) {
+                    tags.push("owned_split_weights_not_plain".to_string());
+                }
+                let d2 = format!("{} ; receiver = owned result {} of {}", lay_desc, k % dry.outs.len(), op_name(&op1));
+                out.bump(&format!("chained_after_{}", op_name(&op1)));
+                out.bump(&format!("chained_owned_receiver_records_{}", phys_class(&pw.recs)));
+                emit_lay(out, em, lt, &pw, &before, &[(op2, on_view2, res)], "layout_chained", &tags, &d2);
+                first_steps.push((op1, false, dry));
+            }
+        }
+        // the first calls of the chains are judged as calls on the source
+        if !first_steps.is_empty() {
+            emit_lay(out, em, lt, &pd, &cur, &first_steps, "layout", &base_tags, &lay_desc);
+        }
+    }
+}
+
 fn main() {
     let args = parse_args();
     let mut rng = Sm64::new(args.seed);
@@ -773,5 +1444,8 @@ fn main() {
         out.case(id, &coq, &["stream_ratio"], &desc, key);
     }
 
-    out.finish("identity-tagged datasets (cell = 64*sample + column, weight = sample + 1/2, names f<c>/t<c>); streams: exhaustive (every operation once on every shape n<=5 x features 0..3 x targets {1-D, 2-D with 0,1,2 columns} x weights x names, label types rotating), random histories of 1..4 calls (owned and view receivers), malformed (calls outside the documented domain, weight vectors of the wrong length), ratio (split point alone, n up to 2^40 on zero-feature datasets); a history is non-trivial when the source has >= 2 samples; distinct = distinct (shape, target values, calls) hashes");
+    // (e) memory layouts: the same operations on Fortran-ordered / strided / reversed / offset / transposed arrays
+    layout_stream(&mut out, &mut em, &mut rng, thorough);
+
+    out.finish("identity-tagged datasets (cell = 64*sample + column, weight = sample + 1/2, names f<c>/t<c>); streams: exhaustive (every operation once on every shape n<=5 x features 0..3 x targets {1-D, 2-D with 0,1,2 columns} x weights x names, label types rotating), random histories of 1..4 calls (owned and view receivers), malformed (calls outside the documented domain, weight vectors of the wrong length), ratio (split point alone, n up to 2^40 on zero-feature datasets), layout (260 sources whose records / targets / weights are Fortran-ordered, strided, reversed, offset or slack slices of larger allocations or transposed - poison cells in the gaps - with every operation on owned and view receivers; raw vectors, offsets and strides read from the live objects) and layout_chained (a second call on the very object - view or owned - that a first call returned, in the layout ndarray gave it); every RNG-driven call is made with a recording generator and replayed in Coq from its words; a history is non-trivial when the source has >= 2 samples; distinct = distinct (shape, target values, calls, layout) hashes");
 }
